@@ -53,7 +53,7 @@ func (r *realExec) Exec(line string) (out string) {
 	}
 	w := r.w
 	op, args := toks[0][3:], toks[1:]
-	if op != "init" && w.cl == nil {
+	if op != "init" && w.env == nil {
 		return "bad-op"
 	}
 	head := "ok"
